@@ -6,8 +6,8 @@ P("C36",
   design_ref="DESIGN.md §3 C36",
   technique="Coq proof (invariant over call histories of the DBTracer state machine, refinement to a declarative "
             "row specification) + exact model/impl correspondence on the four SQLite tables by vm_compute",
-  level_text="Theorems c36_* prove, for every well-formed history of task events interleaved with StartTracing/StopTracing "
-             "calls in ANY order and ended by Terminate, that the model of DBTracer leaves in the database exactly one trace row "
+  level_text="Theorems c36_* prove, for every history of task events (including tags before the start, repeated ends, ends of "
+             "unknown IDs, reused IDs) interleaved with StartTracing/StopTracing calls in ANY order and ended by Terminate, that the model of DBTracer leaves in the database exactly one trace row "
              "(ID, parent, kind, what, location, start, end) for each task that was running at some point while tracing was on, "
              "its tags and its milestones (first of every instant) with it, and one segment per tracing window. The model is "
              "compared row for row with a real DBTracer writing through datarecording into a real SQLite file on every run; "
@@ -15,7 +15,9 @@ P("C36",
   level_note="Trusted: Coq kernel + vm_compute; the Go harness (clock, calls, SQL read-back with the location join); the "
              "hand-written model of dbtracer.go; datarecording + database/sql + SQLite as the identity on rows (times < 2^53, "
              "IDs < 2^63, fewer than 100000 buffered rows so that only the tracer's own Flush calls write).",
-  assumptions=["task events are well-formed (unique starts, ends/tags/milestones only of running tasks, valid start fields) and "
+  assumptions=["a task is started with valid fields and only while no task with the same ID is running (IDs may be reused after the "
+               "end); ends, tags and milestones are unconstrained: an end of an ID that is not running records nothing, a tag/milestone "
+               "that mentions an ID while no such task runs waits for the next start of the ID (any end of the ID discards it); "
                "the clock never goes back; nothing is called after Terminate",
                "times < 2^53 (float64 columns), IDs < 2^63 (SQLite integers)"],
   trusted=["modelled, not verified: tracing/dbtracer.go; the recorder is modelled as buffer-then-flush per table",
